@@ -452,3 +452,62 @@ LEVEL_NOTE = ("split formulas transcribed from the cited papers / split names; p
               "never establishes absence on unexplored states")
 TECHNIQUE = "property-based testing (Hypothesis) vs numpy.linalg.eigh spectral oracle and step-to-step monotonicity"
 DESIGN_REF = "DESIGN.md 4/C17"
+
+
+# ------------------------------------------------------------------------------------------
+# (added by the lead) the container of the strain field: the same strain values handed over as int64 / int32 / float32 /
+# Fortran-ordered arrays, plain or FeArray.  States like (1, 0, 0) or (2, -1, 1) are naturally typed as integers by a caller;
+# the split is a function of the values.
+
+
+def enum_containers(tier):
+    states = {2: [[1, 0, 0], [2, -1, 1], [0, 0, 3], [-2, -2, 0], [1, 1, 2], [0, 0, 0]],
+              3: [[1, 0, 0, 0, 0, 0], [2, -1, 1, 1, 0, -2], [0, 0, 0, 0, 3, 0], [-1, -1, -1, 0, 0, 0], [3, 1, -2, 1, 1, 1], [0, 0, 0, 0, 0, 0]]}
+    for dim in (2, 3):
+        for split in co.SPLITS:
+            for container in ("int64", "int32", "float32", "fortran", "plain_float"):
+                yield dict(dim=dim, split=split, container=container, states=states[dim])
+
+
+def check_containers(case, rec):
+    dim, split = int(case["dim"]), case["split"]
+    D = 3 if dim == 2 else 6
+    vals = np.array(case["states"], float)  # (n, D) integer-valued Kelvin-Mandel vectors
+    Ne, nPg = 2, vals.shape[0] // 2
+    ref = vals.reshape(Ne, nPg, D)
+    mat = Models.Elastic.Isotropic(dim, E=3.0, v=0.25, planeStress=False)
+    pfm = Models.PhaseField(mat, split, "AT2", 1.0, 0.1)
+    c = case["container"]
+    if c == "fortran":
+        arr = FeArray.asfearray(np.asfortranarray(ref.copy()))
+    elif c == "plain_float":
+        arr = ref.copy()
+    else:
+        arr = FeArray.asfearray(ref.astype(c))
+    sig = dict(dim=dim, split=split, container=c)
+    rec.label("container:" + c, "split:" + split)
+
+    def run(x):
+        sP, sM = pfm.Calc_Sigma_e_pg(x)
+        pP, pM = pfm.Calc_psi_e_pg(x)
+        return [_np(sP, (Ne, nPg, D)), _np(sM, (Ne, nPg, D)), _np(pP, (Ne, nPg)), _np(pM, (Ne, nPg))]
+
+    try:
+        got = run(arr)
+    except (TypeError, ValueError, AssertionError) as e:
+        # a container the model refuses is not a wrong answer
+        rec.label("container_refused:" + c)
+        rec.note_max("info:refused", 1.0)
+        rec.nontrivial(False)
+        return
+    exp = run(FeArray.asfearray(ref.copy()))
+    scale = float(np.abs(np.array(mat.C, float)).max() * np.abs(ref).max() ** 2)
+    for name, g, x in zip(("sigma+", "sigma-", "psi+", "psi-"), got, exp):
+        rec.close(g - x, scale, 1e-12, "container_independent",
+                  f"{split} dim={dim}: {name} of the integer-valued strain states {case['states']} handed over as {c} differs from the "
+                  f"float64 FeArray of the same values", name=name, **sig)
+    rec.nontrivial(True)
+
+
+SUBS.append(Sub("strain_containers", check_containers, enum=enum_containers,
+                doc="split x dimension x container (int64, int32, float32, Fortran order, plain ndarray) of the same integer-valued strain states"))
